@@ -122,7 +122,7 @@ class C12(TwoSidedFamily):
     module = "Model.SymbolsCases"
     model_fn = "scase_model"
     finding_bits = {1: "unverified-third-party-key-table"}
-    long_lists = ("roundtrip_differs", "author_mismatch", "overlap_accepted")
+    long_lists = ("roundtrip_differs", "author_mismatch", "overlap_accepted", "rich_differs")
     correspondence = "Biscuit/UnverifiedBiscuit histories vs Model.Symbols"
     rule = ("50 hand-written histories (known finding, every default symbol as predicate name and string in authority, appended and third-party blocks, hand-made first-party blocks that redeclare a default "
             "symbol / an earlier symbol / an earlier key, sealing) + seeded random histories of 1-6 operations "
@@ -131,13 +131,29 @@ class C12(TwoSidedFamily):
             "5 variable names and 4 public keys; at every step print_block_source / block_symbols / "
             "block_public_keys of every block and 4 probe authorizers, in memory and after to_vec/from, on both "
             "token types; a history is distinct by its canonical text and non-trivial when at least two operations "
-            "succeeded and some block declares a symbol or a key")
+            "succeeded and some block declares a symbol or a key; second stream (implementation only, no model): "
+            "300 (quick) / 3000 (thorough) tokens of 1-4 blocks (+ sealing) from the C04 generator (all term types, nested "
+            "collections, expressions, closures, scopes, third-party blocks), compared at every step: in memory vs re-read "
+            "from the bytes vs UnverifiedBiscuit (sources, symbols, keys, versions, external keys, revocation ids, bytes, "
+            "authorize() and the facts after it)")
     trusted = ["public keys are named by a short alias of their printed form (ed25519/k<i>) on both sides",
                "signatures are not modelled here: every token is built by the API or signed with append_serialized"]
     assumptions = ["block contents range over unary string facts, one-premise rules with one variable and one-premise "
                    "checks, each with scopes; other term kinds do not touch the tables",
                    "the authority block never carries an external signature",
                    "BiscuitBuilder::build starts from the default symbol table (build_with_symbols with a custom table is out of scope)"]
+
+    def extra_oracles(self, ctx, summ):
+        # second stream, implementation only: tokens over the whole language, every step, in memory
+        # vs re-read from the bytes, Biscuit vs UnverifiedBiscuit
+        for what in (summ.get("rich_differs") or [])[:5]:
+            ctx.violation({"family": "direct oracle (implementation only): at every step of building a token over the whole "
+                                     "language (C04 generator) the in-memory token, the token re-read from its bytes and the "
+                                     "unverified reading print the same sources, expose the same symbols, keys, versions, external "
+                                     "keys and revocation identifiers, re-serialize to the same bytes and authorize alike",
+                           "case": what[:20000],
+                           "violated_clause": what.split("\n")[0][:300],
+                           "theorem_or_correspondence": "direct oracle"}, True)
 
     def in_class(self, case_text, bit):
         # a third-party append whose content declares a public key (a YKey scope)
